@@ -435,3 +435,41 @@ def m_map_clone(c):
     m.force(c.st)
     vals = [UNIT if m.is_set else clone_value(c.st, m.load(i, None, c.st)) for i in range(len(m.keys))]
     return Map(m.kty, m.vty, [clone_value(c.st, k) for k in m.keys], vals, is_set=m.is_set, ordered=m.ordered)
+
+
+@model('std::slice::sort_by', 'core::slice::sort_by', 'Vec::sort_by', 'alloc::slice::sort_by')
+def m_sort_by(c):
+    """stable sort with a caller-supplied comparator, as a stable insertion sort that calls the comparator's MIR (<= 4 elements).
+    For a comparator that is a total preorder the result is the unique stable sorted order, as std's; for other comparators std's
+    result is unspecified and this is one admissible outcome."""
+    s = as_seq(c.st, c.args[0]) if 'as_seq' in globals() else deref(c.st, c.args[0])
+    n = s.length(c.st)
+    if n > 4:
+        raise Unsupported('sort_by of more than 4 elements')
+    return c.native('sort_by', {'s': s, 'f': c.args[1], 'i': 1, 'j': 1, 'n': n, 'stage': 0})
+
+
+@cont('sort_by')
+def k_sort_by(st, fr, rv):
+    d = fr.data
+    s = d['s']
+    if d['stage'] == 1:
+        disc = rv.disc if isinstance(rv, Enum) else rv
+        greater = (disc == 1) if isinstance(disc, int) else st.branch(disc == z3.BitVecVal(1, disc.size()), 'sort_by greater')
+        d['stage'] = 0
+        if greater:
+            j = d['j']
+            a, b = s.load(j - 1, None, st), s.load(j, None, st)
+            s.store(j - 1, b, st)
+            s.store(j, a, st)
+            d['j'] -= 1
+        else:
+            d['j'] = 0
+    if d['j'] <= 0:
+        d['i'] += 1
+        d['j'] = d['i']
+    if d['i'] >= d['n']:
+        return st.ex.native_return(st, fr, UNIT)
+    d['stage'] = 1
+    j = d['j']
+    return st.ex.call_value(st, d['f'], [TypedPtr(s, j - 1, s.elem_ty), TypedPtr(s, j, s.elem_ty)], None, None)
